@@ -75,6 +75,16 @@ class Reporter:
     def _sig(self, v):
         return (v["clause"], v["cause"])
 
+    def _reproduces(self, payload, sig):
+        for rep in range(2):
+            if payload.get("prelude") if isinstance(payload, dict) else False:
+                from . import run as runmod
+                runmod.prelude(payload)
+            again = self.confirm(payload)
+            if sig not in {(a["clause"], a["cause"]) for a in again}:
+                return False
+        return True
+
     def finish(self):
         known = load_known()
         open_k = {(k["clause"], k["cause"]): k for k in known.get("open", [])
@@ -103,15 +113,27 @@ class Reporter:
             # unknown signature: confirm, write replay(s), report
             for n, v in enumerate(vs[:3]):
                 if self.confirm is not None and n == 0:
-                    for rep in range(2):
-                        again = self.confirm(v["payload"])
-                        sigs = {(a["clause"], a["cause"]) for a in again}
-                        if sig not in sigs:
-                            self.harness_errors.append(
-                                "violation %s/%s did not reproduce on "
-                                "re-execution %d (got %s): uncaptured "
-                                "nondeterminism" % (sig[0], sig[1], rep + 1,
-                                                    sorted(sigs)))
+                    ok = self._reproduces(v["payload"], sig)
+                    if not ok and isinstance(v["payload"], dict) \
+                            and "case" in v["payload"]:
+                        # State carried from an earlier run in the same
+                        # process (module/class level state in topsim)?  Then
+                        # the case fails again when it is run right after a
+                        # run of itself: that is deterministic and replayable.
+                        pre = dict(v["payload"], prelude=1)
+                        if self._reproduces(pre, sig):
+                            for w in vs[:3]:
+                                w["payload"] = dict(w["payload"], prelude=1)
+                            v["detail"] = {"only_after_an_earlier_run_in_the_"
+                                           "same_process": True,
+                                           "detail": v["detail"]}
+                            ok = True
+                    if not ok:
+                        self.harness_errors.append(
+                            "violation %s/%s did not reproduce on "
+                            "re-execution (neither alone nor after a "
+                            "prelude run): uncaptured nondeterminism"
+                            % (sig[0], sig[1]))
                 h = hashlib.sha1(json.dumps(
                     [sig, _jsonable(v["payload"])],
                     sort_keys=True).encode()).hexdigest()[:10]
